@@ -11,7 +11,7 @@ S = {
 }
 ENV_RUN = "env.run is modelled as an arbitrary finite sequence of process segments, each preserving the proved class / heap invariants (the segment rule); it is not itself verified"
 MACHINE_RUN = "Machine.run / run_task / stop_task are verified bodies (no longer assumed): Task.io is a union-typed heap field (dict | number | None); on the dict reading the encoding keeps the earlier approximation (a number stored there reads as an empty dict), only arithmetic on it is checked (TypeError obligation unless it holds a number)"
-ALG = "user scheduling algorithms are an abstract callee: may call the public Cluster API, returns an arbitrary task->machine mapping (Scheduling.run assumed contract); they do not write private fields of the actors or spawn processes"
+ALG = "user scheduling algorithms are an abstract callee: may call the public Cluster API, returns an arbitrary task->machine mapping (Scheduling.run assumed contract); they do not write private fields of the actors or spawn processes; the four shipped algorithms are VERIFIED to refine that contract (refines-Scheduling.run:* obligations: abstract post-condition, frame within the abstract frame) - for them it is assumed only that their own preconditions hold and that they do not raise"
 NX = "networkx (assumed): predecessors / successors / pred / nodes as an edge relation; topological_sort lists every node once with every edge forward; relabel_nodes is the image graph"
 NP = "numpy.random (assumed): default_rng(seed) is a pure function of seed, default_rng() is not; normal/poisson return arrays of the requested length (all equal to the mean when the spread is 0); a[a > x] keeps exactly the elements > x"
 PD = "pandas (assumed): DataFrame(list of dicts) has one row per element; DataFrame(dict of dicts) has one column per key; .T swaps rows and columns; len(frame) is its row count; frame[col] = list needs one value per row and keeps the rows; infer_objects keeps rows and columns; concat adds row counts; the outer join of one-row frames has one row"
